@@ -30,7 +30,7 @@ Opt = _T('Opt')
 Obj = _T('Obj')
 Ver = _T('Ver')
 Any = _T('Any')
-ListSI = ListStr = ListIB = ListInt = ListRef = list
+ListSI = ListStr = ListIB = ListInt = ListRef = ListBytes = list
 Pair = tuple
 
 
@@ -70,6 +70,22 @@ def ghost_at(*a, **k):
 
 def implies(a, b):
     return (not a) or b
+
+
+def lb(*xs):
+    return [bytes(x) for x in xs]
+
+
+def lsi(s, i):
+    return [(s, i)]
+
+
+def lstr(s):
+    return [s]
+
+
+def num(x):
+    return float(x)
 
 
 def b2i(b):
